@@ -43,6 +43,9 @@ def spec():
         "Base": {"type": "object", "required": ["id"], "properties": {"id": {"type": "integer"}, "kind": {"type": "string"}}},
         "Employee": {"allOf": [{"$ref": "#/components/schemas/Base"}, {"type": "object", "required": ["boss"], "properties": {
             "boss": {"type": "string"}, "office": {"$ref": "#/components/schemas/Address"}}}]},
+        # a REQUIRED key that already looks like a de-collision suffix is processed before the two keys that collide
+        "Account": {"type": "object", "required": ["user_id_2"], "properties": {
+            "user_id_2": {"type": "string"}, "userId": {"type": "string"}, "user_id": {"type": "string"}, "User-Id": {"type": "integer"}}},
         "Tree": {"type": "object", "required": ["label"], "properties": {"label": {"type": "string"}, "kids": {"type": "array", "items": {"$ref": "#/components/schemas/Tree"}}}},
     }
     ok = {"description": "ok", "content": {"application/json": {"schema": {"$ref": "#/components/schemas/Person"}}}}
